@@ -582,26 +582,38 @@ def common_mode(sc, res):
 
 def zip_mode(sc, res):
     log = res.log
-    mlog = Log()
     kind = sc.branches[0].kind
     vals = [Tok(i) for i in range(sc.n)]
-    mbranches = [MBranch(b, mlog) for b in sc.branches]
-    mlog.ev("built")
-    for v in vals:
-        for br in mbranches:
-            br.fill(v)
 
-    def mgen():
-        gens = [(br.compute() if kind == "fc" else br.request()) for br in mbranches]
-        while True:
-            tup = []
-            for g in gens:
-                try:
-                    tup.append(next(g))
-                except StopIteration:
-                    return
-            yield tuple(tup)
-    consume(mgen(), mlog)
+    def model(drain):
+        # the statement fixes the tuples of i-th results; whether the branches that still
+        # have results when the shortest one ends are run to their end (drain) or abandoned
+        # is not part of it: both schedules are accepted
+        mlog = Log()
+        mbranches = [MBranch(b, mlog) for b in sc.branches]
+        mlog.ev("built")
+        for v in vals:
+            for br in mbranches:
+                br.fill(v)
+
+        def mgen():
+            gens = [(br.compute() if kind == "fc" else br.request()) for br in mbranches]
+            while True:
+                tup = []
+                for g in gens:
+                    try:
+                        tup.append(next(g))
+                    except StopIteration:
+                        if drain:
+                            for g2 in gens:
+                                for _ in g2:
+                                    pass
+                        return
+                yield tuple(tup)
+        consume(mgen(), mlog)
+        return mlog
+    mlog = model(True)
+    mlog_abandon = model(False)
     try:
         z = lena.flow.Zip([real_branch(b, log) for b in sc.branches])
         log.ev("built")
@@ -617,4 +629,6 @@ def zip_mode(sc, res):
     res.probe("zip")
     if len(sc.branches) >= 2 and sc.n:
         res.nontrivial = True
+    if log.events == mlog_abandon.events:
+        return
     compare(sc, res, log.events, mlog.events, "Zip")
